@@ -197,6 +197,18 @@ func minLen(r, c, ld int) int {
 	return max(0, (r-1)*ld+c)
 }
 
+// off gives the padding of the k-th matrix argument of a call in leading-
+// dimension mode ldx: mode 0 is "every leading dimension minimal"; in mode 2 the
+// first matrix gets +2 and the others +1, +3, +4, +5, so that all leading
+// dimensions of one call differ from each other (an argument used with the
+// leading dimension of another one then addresses the wrong elements).
+func off(ldx, k int) int {
+	if ldx == 0 {
+		return 0
+	}
+	return [...]int{2, 1, 3, 4, 5}[k%5]
+}
+
 // ldOf returns max(1, c) + extra.
 func ldOf(c, extra int) int { return max(1, c) + extra }
 
